@@ -548,6 +548,9 @@ class Exec(Path):
                 return
             except CtlContinue:
                 pass
+            for ex in spec.get("lemmas_after_body", []):
+                # ground instances of spec-function definitions, stated about the values the body just produced
+                self.assume(self.eval_contract_expr(ex))
             for gname, gexpr in spec.get("ghost_step", {}).items():
                 self.env[gname] = self.eval_contract_expr(gexpr, want_bool=False)
             for j, inv in enumerate(invs):
@@ -667,7 +670,7 @@ class Exec(Path):
         name = name.replace(".", "_").replace("[", "_").replace("]", "").replace('"', "").replace("'", "")
         h = self.heap[ref.rid]
         if isinstance(h, HBytes):
-            h.t = self.fresh(name, BYTES)
+            h.t = self.fresh(name, BYTES)       # a tracked length (fixed-size buffer) survives: bytearray length changes only by extend
         elif isinstance(h, HList):
             if h.items is not None and any(isinstance(x, VRef) and not isinstance(self.heap[x.rid], (HDict, HList, HBytes)) for x in h.items):
                 raise Unsupported("havoc of list holding object references")
@@ -1163,6 +1166,10 @@ class Exec(Path):
             if not (isinstance(st, VInt) and z3.is_int_value(z3.simplify(st.t)) and z3.simplify(st.t).as_long() == 1):
                 raise Unsupported("slice step")
         t, mk = self.seq_term(obj)
+        tracked_len = None
+        hb = self.deref(obj) if isinstance(obj, VRef) else None
+        if isinstance(hb, HBytes) and hb.length is not None:
+            tracked_len = hb.length
         lo = self.as_int(self.eval(sl.lower)) if sl.lower is not None else None
         hi = self.as_int(self.eval(sl.upper)) if sl.upper is not None else None
         if t is None:
@@ -1178,7 +1185,7 @@ class Exec(Path):
             else:
                 res = items[lo_c:hi_c]
                 return VTuple(res) if isinstance(mk, VTuple) else self.alloc(HList(items=res))
-        ln = z3.Length(t)
+        ln = tracked_len if tracked_len is not None else z3.Length(t)
 
         def clamp(x, default):
             if x is None:
